@@ -24,6 +24,7 @@ class CaseRun(object):
         self.info = {}
         self.stats = {}
         self.skipped_mods = 0
+        self.cb_errors = []
 
     def run(self):
         desc = self.desc
@@ -36,16 +37,39 @@ class CaseRun(object):
         exp = mc.Expect(desc)
         mk = json.loads(json.dumps(m.markup))
         self._faithful(exp, mk, m, 'constructed')
+        # callback programs: reads and modifications issued from inside callbacks while the models move
+        decisions = {}
+        script = desc.get('script') or {}
+
+        def cmd_orig(machine, key, cmd):
+            if cmd[0] != 'read':
+                decisions[key] = mc.mod_is_valid(exp, cmd)
+                if not decisions[key]:
+                    return
+                try:
+                    mc.apply_mod(machine, cmd)
+                except Exception as e:      # would be swallowed by the trigger call around us
+                    self.cb_errors.append('%s: %s in %s' % (type(e).__name__, e, cmd[0]))
+                    raise
+                exp.apply(cmd)
+            inner = json.loads(json.dumps(machine.markup))
+            self._faithful(exp, inner, machine, 'inside callback %s: %s' % (key[0], cmd[0]))
+
+        def cmd_twin(machine, key, cmd):
+            if cmd[0] != 'read' and decisions.get(key):
+                mc.apply_mod(machine, cmd)
+        ctx_o = mc.Ctx(script, cmd_orig) if script else None
+        ctx_t = mc.Ctx(script, cmd_twin) if script else None
         for i, mod in enumerate(desc['mods']):
             if not mc.mod_is_valid(exp, mod):
                 self.skipped_mods += 1
                 continue
             before = mk
-            m = mc.apply_mod(m, mod)
+            m = mc.apply_mod(m, mod, ctx_o)
             if mod[0] != 'observe':
                 # (restores are applied to the twin as well: copy.deepcopy of a hierarchical machine separates
                 # callback lists that transitions shared, which is core behaviour and changes later registrations)
-                twin = mc.apply_mod(twin, mod)
+                twin = mc.apply_mod(twin, mod, ctx_t)
             exp.apply(mod)
             mk = json.loads(json.dumps(m.markup))
             stage = 'after modification %d: %s' % (i, ' '.join(str(x) for x in mod[:2]) if mod[0] in ('observe', 'clone') else mod[0])
@@ -57,6 +81,9 @@ class CaseRun(object):
                 if d:
                     self.failures.append(('monitor', 'current.markup-changed-by-' + ('observer' if mod[0] == 'observe' else 'restore'),
                                           {'stage': stage, 'differences': [[p, a, b] for p, a, b in d[:6]]}, None))
+        if self.cb_errors:
+            raise common.MachineryError('a modification issued from inside a callback was rejected by the library '
+                                        '(generator problem, not a verdict): %s\n%s' % (self.cb_errors[:2], json.dumps(desc)[:2500]))
         codec = mc.Codec(desc['hier'], desc['opts']['model_attribute'])
         wst, wtr = mc.whitelist_codes()
         self.request = ('c14', [len(wst)] + wst + [len(wtr)] + wtr + codec.cfg(m))
@@ -169,6 +196,8 @@ def _bump(d, k, n=1):
 
 def _stats(st, d, r):
     _bump(st.setdefault('class', {}), ('hierarchical' if d['hier'] else 'flat') + ('+diagram' if d.get('graph') else ''))
+    _bump(st.setdefault('state_definitions', {}), 'enum:' + d['enum'] if d.get('enum') else 'names')
+    _bump(st.setdefault('callback_program_commands', {}), str(sum(len(v) for v in (d.get('script') or {}).values())))
     _bump(st.setdefault('n_states', {}), str(len(mc.all_names(d['states']))))
     _bump(st.setdefault('n_models', {}), str(len(d['models'])))
     _bump(st.setdefault('n_modifications_applied', {}), str(len(d['mods']) - r.skipped_mods))
@@ -208,6 +237,17 @@ def shrink_steps(case):
     if d.get('graph'):
         c = copy.deepcopy(d)
         c['graph'] = False
+        yield mk(c)
+    for name, cmds in sorted((d.get('script') or {}).items()):
+        for j in range(len(cmds)):
+            c = copy.deepcopy(d)
+            del c['script'][name][j]
+            if not c['script'][name]:
+                del c['script'][name]
+            yield mk(c)
+    if d.get('enum'):
+        c = copy.deepcopy(d)
+        c['enum'] = None
         yield mk(c)
     for i in range(1, len(d['models'])):
         if i == len(d['models']) - 1:
@@ -331,7 +371,9 @@ class C14(runner.Check):
             'may_trigger, markup reads)/pickle and deepcopy restores) x histories of 6-14 triggers; a case is non-trivial when a state slot and a '
             'transition slot hold callbacks and the history executes at least one transition; every history is run on '
             'three machines: a twin nobody ever exported/observed, the original after all exports, the rebuilt one; '
-            'user triggers named like automatic ones (to_<state>) when auto_transitions is off; distinct = different '
+            'user triggers named like automatic ones (to_<state>) when auto_transitions is off; callback programs '
+            '(markup reads and dirty-setting modifications issued from inside state/transition callbacks while the '
+            'models move); Enum state definitions (plain, IntEnum, str mix-in, StrEnum); distinct = different '
             'description')
     trusted = ('hand-written model lean/Model/Markup.lean tied to /repo by equality of the encoded markup '
                '(export), of the rebuilt object state (import) and of the re-exported markup on every generated case',
@@ -470,6 +512,11 @@ class C14(runner.Check):
                 'transitions; with auto_transitions off, user triggers named like automatic ones are generated but '
                 'never with one source per state (the _is_auto_transition heuristic would then omit them); no state '
                 'is named after model_attribute',
+                'modifications issued from inside callbacks are generated only when no locally declared transition '
+                'exists (scoped callbacks modify the scope they run in) and never add states to a hierarchical machine '
+                'with auto_transitions on (nesting.py raises half way); Enum state definitions are leaf states and are '
+                'not combined with hierarchical diagram machines (diagram code fails to resolve the Enum path while '
+                'scoped)',
                 'remove_transition is exercised on triggers that exist at machine level; model states are reached '
                 'by triggers or add_model(initial=...), i.e. are resolved configurations',
                 'behavioural equality original vs rebuilt is sampled over random histories (callbacks by name, '
